@@ -70,7 +70,9 @@ UNITS = {
         "doc": "counter_low/counter_high: (high as u64) << 32 | low as u64 == counter, for all u64",
         "functions": [("crate::counter_low", "src/lib.rs", r"\bfn\s+counter_low\s*\("),
                       ("crate::counter_high", "src/lib.rs", r"\bfn\s+counter_high\s*\(")],
-        "harnesses": {"vf_counter_words": [("counter", "u64")]},
+        "harnesses": {"vf_counter_low": [("counter", "u64")], "vf_counter_high": [("counter", "u64")],
+                      "vf_counter_words": [("counter", "u64")]},
+        "targets": {"vf_counter_high": "crate::counter_high"},
         "domain": "all counter: u64",
     },
     "output_reader_seek": {
@@ -89,6 +91,10 @@ UNITS = {
             "vf_seek_current": [("counter", "u64"), ("position_within_block", "u8"), ("d", "i64")],
             "vf_seek_end": [("counter", "u64"), ("position_within_block", "u8"), ("d", "i64")],
         },
+        "targets": {"vf_set_position": "crate::OutputReader::set_position",
+                    "vf_seek_start": "crate::OutputReader::Seek__seek",
+                    "vf_seek_current": "crate::OutputReader::Seek__seek",
+                    "vf_seek_end": "crate::OutputReader::Seek__seek"},
         "domain": "all (counter: u64, pwb: u8) with pwb < 64 and 64*counter + pwb <= u64::MAX; all x: u64 / d: i64",
     },
     "from_hex": {
@@ -124,9 +130,39 @@ UNITS = {
             "vf_spec_u64_trailing_zeros": [("x", "u64")],
             "vf_spec_usize_is_64_bit": [],
         },
+        "targets": {
+            "vf_spec_u32_rotate_right": "core::u32::rotate_right (assumed specification)",
+            "vf_spec_u32_from_le_bytes": "core::u32::from_le_bytes (assumed specification vf_u32_from_le_bytes)",
+            "vf_spec_u32_to_le_bytes": "core::u32::to_le_bytes (assumed specification VfToLe::vf_to_le_bytes)",
+            "vf_spec_u64_count_ones": "core::u64::count_ones (assumed specification)",
+            "vf_spec_usize_count_ones": "core::usize::count_ones (assumed specification)",
+            "vf_spec_u64_next_power_of_two": "core::u64::next_power_of_two (assumed specification)",
+            "vf_spec_usize_next_power_of_two": "core::usize::next_power_of_two (assumed specification)",
+            "vf_spec_u64_trailing_zeros": "core::u64::trailing_zeros (specification sp_tz64)",
+            "vf_spec_usize_is_64_bit": "global size_of usize == 8 (assumed configuration)",
+        },
         "domain": "full domain of each argument (rotate: 0 < n < 32; next_power_of_two: x <= 2^63)",
         "bounded_note": ["recursive spec functions transcribed as loops of at most 64 iterations (type width), "
                          "unwound 66 times: exhaustive, unwinding assertions are obligations"],
+    },
+    "prelude_array_ref": {
+        "props": ["C01"], "tier": "quick", "file": "src/lib.rs", "level": "bounded",
+        "doc": "audit of extraction rule R1 / trusted wrappers vf_array_ref, vf_array_mut_ref against the real "
+               "arrayref::array_ref!/array_mut_ref! macros: window == s[off..off+N], writes confined to the window; "
+               "instances only (generic in T, N)",
+        "functions": [],
+        "audited": ["vf_array_ref (R1: arrayref::array_ref!)", "vf_array_mut_ref (R1: arrayref::array_mut_ref!)"],
+        "harnesses": {
+            "vf_spec_array_ref_u8_4": [("buf", "[u8;16]"), ("len", "usize"), ("off", "usize")],
+            "vf_spec_array_ref_u8_32": [("buf", "[u8;72]"), ("len", "usize"), ("off", "usize")],
+            "vf_spec_array_mut_ref_u8_4": [("old", "[u8;16]"), ("len", "usize"), ("off", "usize"), ("new", "[u8;4]")],
+        },
+        "targets": {"vf_spec_array_ref_u8_4": "arrayref::array_ref! (assumed specification vf_array_ref)",
+                    "vf_spec_array_ref_u8_32": "arrayref::array_ref! (assumed specification vf_array_ref)",
+                    "vf_spec_array_mut_ref_u8_4": "arrayref::array_mut_ref! (assumed specification vf_array_mut_ref)"},
+        "bounded": ["instances T = u8, N = 4 (slice length <= 16) and N = 32 (slice length <= 72), every offset with "
+                    "off + N <= len; the wrappers are generic in T and N"],
+        "domain": "T = u8; (N, max len) in {(4, 16), (32, 72)}; all contents, lengths, offsets with off + N <= len",
     },
     "reset_restores_initial_state": {
         "props": ["C10"], "tier": "quick", "file": "src/lib.rs", "playback": "cbmc",
@@ -460,6 +496,17 @@ def _classify(res, u, unit, parsed, rc, out, errtxt, mod_start):
         by_short[full.split("::")[-1]] = (full, h)
     if rc == -9:
         undec.append("cargo kani timed out")
+    elif not parsed and rc != 0:
+        lines = [l.strip() for l in (errtxt + "\n" + out).split("\n")
+                 if re.search(r"^error|panicked|memory allocation|Killed|SIG", l.strip())]
+        seen, uniq = set(), []
+        for l in lines:
+            if l not in seen:
+                seen.add(l)
+                uniq.append(l)
+        res["undecided_reason"] = ("cargo kani did not build/run the harness module (rc=%s): %s"
+                                   % (rc, " | ".join(uniq[:6]) or (errtxt or out)[-600:]))[:2000]
+        return
     for hname, schema in u["harnesses"].items():
         if hname not in by_short:
             if rc != -9:
@@ -495,13 +542,15 @@ def _classify(res, u, unit, parsed, rc, out, errtxt, mod_start):
             # semantic failure
             in_repo = bool(c["file"]) and c["file"].startswith("src/")
             in_harness = in_repo and c["file"] == u["file"] and (c["line"] or 0) >= mod_start
-            primary = u["functions"][0][0] if u["functions"] else "core (assumed specification)"
+            primary = u.get("targets", {}).get(hname) or (u["functions"][0][0] if u["functions"] else "core")
+            ploc = next((f.split(" (")[1].rstrip(")") for f in res["functions_verified"]
+                         if f.startswith(primary + " (")), None)
             if in_repo and not in_harness:
                 fn = _repo_function(c["function"] or "")
                 loc = "%s:%d" % (c["file"], c["line"])
             else:
                 fn = primary
-                loc = None
+                loc = ploc            # check inside `core` reached from the function: the function's line
                 if in_harness:
                     loc = "verif:kani/%s.rs:%d" % (unit, c["line"] - mod_start + 1)
             fo = failed_obligation(
@@ -514,14 +563,26 @@ def _classify(res, u, unit, parsed, rc, out, errtxt, mod_start):
         if h["verdict"] != "SUCCESSFUL" and nfail == 0:
             undec.append("harness %s: VERIFICATION:- %s with 0 failed checks" % (hname, h["verdict"]))
         for c in proper:
-            if c["status"] == "SUCCESS" and "pointer" not in c["id"] and len(samples) < 8 and \
-                    (c["file"] or "").startswith("src/"):
-                samples.append({"function": (c["function"] or ""), "kind": _kind(c["description"], c["id"]),
-                                "clause": c["description"], "harness": hname})
+            if c["status"] != "SUCCESS" or "pointer" in c["id"] or not (c["file"] or "").startswith("src/"):
+                continue
+            in_h = c["file"] == u["file"] and (c["line"] or 0) >= mod_start
+            if in_h and (re.match(r"attempt to|division by zero|unreachable code", c["description"])
+                         or ".assertion." not in c["id"]):
+                continue                      # arithmetic of the harness's own assertion text
+            s = {"function": (u.get("targets", {}).get(hname) or (u["functions"][0][0] if u["functions"] else "core"))
+                 if in_h else _repo_function(c["function"] or ""),
+                 "kind": "postcondition" if in_h else _kind(c["description"], c["id"]),
+                 "clause": c["description"],
+                 "location": ("verif:kani/%s.rs:%d" % (unit, c["line"] - mod_start + 1)) if in_h
+                 else "%s:%d" % (c["file"], c["line"]), "harness": hname}
+            if not any(x["clause"] == s["clause"] and x["location"] == s["location"] for x in samples):
+                samples.append(s)
     res["obligations"] = obligations
     res["discharged"] = discharged
     res["failed"] = failed
-    res["samples"] = samples
+    post = [s for s in samples if s["kind"] == "postcondition"]
+    other = [s for s in samples if s["kind"] != "postcondition"]
+    res["samples"] = post[:5] + other[:3]
     res["harnesses"] = {k: {"verdict": v[1]["verdict"], "checks": v[1]["summary"][1] if v[1]["summary"] else 0,
                             "seconds": v[1]["seconds"]}
                         for k, v in by_short.items()}
